@@ -30,7 +30,7 @@ VARIABLES snapv, hist, prog, kind
 hvars == <<snapv, hist, prog, kind>>
 
 HInit == /\ snapv \in 1..Len(Snaps) /\ hist = <<>> /\ prog = <<>> /\ kind \in {"seq", "conc"}
-         /\ phase = "gen" /\ snap = <<>> /\ lvl = "ExactFlags" /\ rev = FALSE
+         /\ phase = "gen" /\ snap = <<>> /\ lvl = "ExactFlags" /\ rev = "asc"
          /\ bmap = {} /\ i = 1 /\ order = <<>> /\ result = <<>>
 
 (* a sequential history grows by one operation; the snapshot value is untouched *)
